@@ -43,6 +43,16 @@ type PropCfg struct {
 	Thorough    []HarnessCfg      `json:"thorough"`
 	Assumptions []string          `json:"assumptions"`
 	Bounds      map[string]string `json:"bounds"`
+	Sweeps      []SweepCfg        `json:"sweeps"`
+}
+
+// SweepCfg: a native program (under the harness module, built with the
+// property's overlay) that validates a stub contract.
+type SweepCfg struct {
+	Pkg   string   `json:"pkg"`
+	Args  []string `json:"args"`
+	Tier  string   `json:"tier"`
+	Virt  string   `json:"virt"` // virtual path of its main.go (overlay)
 }
 
 type knownFinding struct {
@@ -430,6 +440,38 @@ func cmdCheck(args []string) {
 		fmt.Printf("  violated: %s at %s in %s with%s (native: %s %s)\n", v.ID, v.Pos, o.cfg.Harness, drawStr(v.Draws), r.Outcome, firstLine(r.Msg))
 	}
 
+	// ---- native contract sweeps for stubs (not the deciding step)
+	var sweepNotes []string
+	for _, sw := range cfg.Sweeps {
+		if sw.Tier != "" && sw.Tier != *tier {
+			continue
+		}
+		args := []string{"run"}
+		if overlayJSON != "" {
+			args = append(args, "-overlay", overlayJSON)
+		}
+		args = append(args, sw.Pkg)
+		args = append(args, sw.Args...)
+		cmd := exec.Command("go", args...)
+		cmd.Dir = hdir
+		cmd.Env = goEnv()
+		out, err := cmd.CombinedOutput()
+		txt := strings.TrimSpace(string(out))
+		sweepNotes = append(sweepNotes, sw.Pkg+" "+strings.Join(sw.Args, " ")+": "+firstLine(lastLineOf(txt)))
+		if err != nil {
+			if strings.Contains(txt, "roundtrip=fail") {
+				violations++
+				rp := map[string]interface{}{"property": *prop, "sweep": sw.Pkg, "output": txt}
+				rb, _ := json.MarshalIndent(rp, "", " ")
+				rpath := filepath.Join(*vdir, "replays", fmt.Sprintf("%s-sweep.json", *prop))
+				os.WriteFile(rpath, rb, 0644)
+				violLines = append(violLines, fmt.Sprintf("VIOLATION property=%s replay=%s", *prop, rpath))
+			} else {
+				inconcl = append(inconcl, "stub contract sweep failed: "+firstLine(txt))
+			}
+		}
+	}
+
 	// ---- second-solver cross-check of the recorded transcripts (thorough)
 	xcheck := map[string]interface{}{}
 	if *tier == "thorough" && os.Getenv("VERIF_NO_XCHECK") == "" {
@@ -526,6 +568,7 @@ func cmdCheck(args []string) {
 			"covers_reached":                covers,
 			"stubs_used":                    stubList,
 			"second_solver":                 xcheck,
+			"stub_contract_sweeps":          sweepNotes,
 			"encoding_regenerated_from":     *repo + " (go/packages + go/ssa on every run, load " + fmt.Sprintf("%.1fs", P.LoadTime.Seconds()) + ")",
 			"explanation":                   "states = explored paths (decision prefixes) of the symbolic execution of the real SSA; transitions = symbolic branch decisions; every path's solver model is re-run natively and its observations compared",
 		},
@@ -585,6 +628,13 @@ func cmdCheck(args []string) {
 		os.Exit(2)
 	}
 	fmt.Printf("PASS property=%s\n", *prop)
+}
+
+func lastLineOf(s string) string {
+	if i := strings.LastIndexByte(s, '\n'); i >= 0 {
+		return s[i+1:]
+	}
+	return s
 }
 
 func round2(f float64) float64 { return float64(int(f*100+0.5)) / 100 }
